@@ -36,6 +36,21 @@ CLAIMED = {
         "equality.",
         design_ref="DESIGN.md §4 C02",
     ),
+    "C03": dict(
+        technique=TECH + "linear-inequality step over the guards on every success path of the builders, "
+        "finite decision tree over one octet for label-type classifiers and Display-vs-reader escaping, "
+        "unchecked-constructor audit (validator dominance / re-wrap typing / unsafe propagation / audited)",
+        text="Decides structural necessary conditions of C03: on every success path of NameBuilder's appending "
+        "methods the guards taken imply len+appended <= 254 (255 absolute) and label payload <= 63 "
+        "(CharStrBuilder <= 255); append_label/append_name restore head on error; parse_ref caps the "
+        "accumulated length at 254 in both phases (sibling agreement), skip/check_slice use 255/254; the "
+        "label-type classifiers map exactly 0x00..0x3F to labels and 0xC0..0xFF to pointers (all 256 octets "
+        "enumerated); every call of an unsafe constructor of Name/RelativeName/Label/CharStr is "
+        "validator-dominated, a re-wrap of a validated value, inside an unsafe fn, or audited with a reason; "
+        "Label's Display prints raw only octets the reader accepts unescaped (all 256 octets). One known "
+        "finding (off-by-one pinned by a test). Round-trip equality is not decided.",
+        design_ref="DESIGN.md §4 C03",
+    ),
     "C04": dict(
         technique=TECH + "field-set coherence of every Eq/Hash/Ord/CanonicalOrd impl, same-field pairing of "
         "every comparison, case-fold primitive identity, label-wise hashing/comparison of name types, "
@@ -182,7 +197,7 @@ def main():
         print("MANIFEST.json written (jsonschema not available in this interpreter)")
 
 
-SOURCE_COMMITS = ["6d017b8", "5bee0e2", "d442263", "1972f03", "e564cac", "7c5564a", "eac9679", "3d7d923"]
+SOURCE_COMMITS = ["6d017b8", "5bee0e2", "d442263", "1972f03", "e564cac", "7c5564a", "eac9679", "3d7d923", "6138459"]
 
 if __name__ == "__main__":
     main()
